@@ -10,8 +10,8 @@ import (
 	"strings"
 	"time"
 
-	"github.com/tendermint/tendermint/libs/log"
 	tmbytes "github.com/tendermint/tendermint/libs/bytes"
+	"github.com/tendermint/tendermint/libs/log"
 	tmproto "github.com/tendermint/tendermint/proto/tendermint/types"
 
 	"github.com/cosmos/cosmos-sdk/codec"
@@ -130,13 +130,15 @@ type ModuleSvcSpec struct {
 
 // RigConfig fixes the in-memory (non-store) configuration of the service keeper for a scenario.
 type RigConfig struct {
-	ReentrantPauseSiblings bool // the other module answers "paused: insufficient balances" of one context by pausing its other contexts
-	ReentrantSelfKill bool // the other module answers a failed batch (response callback with an error) by killing that very context
-	ReentrantRestart bool // the other module reacts to a state callback (context paused for funds) by starting the context again at once
-	Reentrant bool // the other module reacts inside its callbacks: state callback -> kills that context; response callback with an error -> kills its other contexts
-	ResponseOnlyModules []string // modules that registered a response callback but no state callback
-	CallbackModules []string
-	ModuleServices  []ModuleSvcSpec
+	ReentrantStartSiblings bool     // ... by starting its other (paused) contexts
+	ReentrantCreate        bool     // the other module answers a failed batch (response callback with an error) by creating a follow-up context
+	ReentrantPauseSiblings bool     // the other module answers "paused: insufficient balances" of one context by pausing its other contexts
+	ReentrantSelfKill      bool     // the other module answers a failed batch (response callback with an error) by killing that very context
+	ReentrantRestart       bool     // the other module reacts to a state callback (context paused for funds) by starting the context again at once
+	Reentrant              bool     // the other module reacts inside its callbacks: state callback -> kills that context; response callback with an error -> kills its other contexts
+	ResponseOnlyModules    []string // modules that registered a response callback but no state callback
+	CallbackModules        []string
+	ModuleServices         []ModuleSvcSpec
 }
 
 // Rig is the real keepers wired as in app/app.go minus everything the module does not touch.
@@ -207,6 +209,13 @@ func NewRig(cfg RigConfig) *Rig {
 				c.BatchCounter = rc.BatchCounter
 			}
 			rec.log = append(rec.log, c)
+			if rc, ok := r.sk.GetRequestContext(ctx, id); ok && cfg.ReentrantCreate && err != nil {
+				// ask again: a follow-up one-shot context with the same terms
+				if _, cerr := r.sk.CreateRequestContext(ctx, rc.ServiceName, rc.Providers, rc.Consumer, rc.Input, rc.ServiceFeeCap, rc.Timeout,
+					false, false, 0, 0, servicetypes.RUNNING, 1, mod); cerr == nil {
+					rec.log = append(rec.log, CallbackRec{Kind: "create", Ctx: hexs(id)})
+				}
+			}
 			if rc, ok := r.sk.GetRequestContext(ctx, id); ok && cfg.ReentrantSelfKill && err != nil {
 				if r.sk.KillRequestContext(ctx, id, rc.Consumer) == nil {
 					rec.log = append(rec.log, CallbackRec{Kind: "selfkill", Ctx: hexs(id)})
@@ -245,6 +254,22 @@ func NewRig(cfg RigConfig) *Rig {
 			if rc, ok := r.sk.GetRequestContext(ctx, id); ok && cfg.Reentrant {
 				if r.sk.KillRequestContext(ctx, id, rc.Consumer) == nil {
 					rec.log = append(rec.log, CallbackRec{Kind: "kill", Ctx: hexs(id)})
+				}
+			}
+			if cfg.ReentrantStartSiblings {
+				var others [][]byte
+				var consumers []sdk.AccAddress
+				r.sk.IterateRequestContexts(ctx, func(oid tmbytes.HexBytes, oc servicetypes.RequestContext) bool {
+					if oc.ModuleName == mod && !bytes.Equal(oid, id) {
+						others = append(others, append([]byte{}, oid...))
+						consumers = append(consumers, oc.Consumer)
+					}
+					return false
+				})
+				for i := range others {
+					if r.sk.StartRequestContext(ctx, others[i], consumers[i]) == nil {
+						rec.log = append(rec.log, CallbackRec{Kind: "start", Ctx: hexs(others[i])})
+					}
 				}
 			}
 			if cfg.ReentrantPauseSiblings {
@@ -342,7 +367,9 @@ type StepResult struct {
 	ModErr    error // error returned by a keeper API call played by the "other module"
 }
 
-func (r *StepResult) OK() bool { return r.Stateless == nil && r.Err == nil && r.Panic == "" && r.ModErr == nil }
+func (r *StepResult) OK() bool {
+	return r.Stateless == nil && r.Err == nil && r.Panic == "" && r.ModErr == nil
+}
 
 func (r *StepResult) Outcome() string {
 	switch {
@@ -513,15 +540,15 @@ func (f Funding) coins() sdk.Coins {
 
 // ParamSet is one configuration of the module parameters.
 type ParamSet struct {
-	Name          string
-	Tax           string
-	Slash         string
-	MaxTimeout    int64
-	MinDeposit    int64
-	Multiple      int64
-	Arbitration   time.Duration
-	Complaint     time.Duration
-	BaseDenom     string // "" = stake
+	Name        string
+	Tax         string
+	Slash       string
+	MaxTimeout  int64
+	MinDeposit  int64
+	Multiple    int64
+	Arbitration time.Duration
+	Complaint   time.Duration
+	BaseDenom   string // "" = stake
 }
 
 func (p ParamSet) Params() servicetypes.Params {
